@@ -142,6 +142,8 @@ class Tracer:
             self._install_torsion()
         if "placement" in groups:
             self._install_placement()
+        if "debump" in groups:
+            self._install_debump()
 
     def _install_atoms(self):
         import pdb2pqr.aa as aa
@@ -402,6 +404,80 @@ class Tracer:
             return classmethod(rotate_tetrahedral)
         self._patch(debump.Debump, "set_dihedral_angle", mk_dih)
         self._patch(presidue.Residue, "rotate_tetrahedral", mk_tet)
+
+    def _install_debump(self):
+        """the search of Debump.debump_residue: pick / score / set / conflicts / return, one list per call"""
+        import pdb2pqr.debump as debump
+        import pdb2pqr.residue as presidue
+
+        tr = self
+        tr.debump_calls = []
+        cur = []          # stack of open calls
+
+        def q6(v):
+            try:
+                v = float(v) * 1e6
+                return int(round(v)) if abs(v) < 2 ** 30 else 2 ** 30
+            except Exception:
+                return 2 ** 30
+
+        def mk_res(orig):
+            def debump_residue(deb, residue, conflict_names, *xa, **xk):
+                call = {"res": _rid(residue), "stage": tr.cur_stage, "ev": []}
+                cur.append(call)
+                try:
+                    r = orig(deb, residue, conflict_names, *xa, **xk)
+                    call["ev"].append({"e": "ret", "v": bool(r)})
+                    return r
+                finally:
+                    cur.pop()
+                    tr.debump_calls.append(call)
+            return debump_residue
+
+        def mk_score(orig):
+            def score_dihedral_angle(deb, residue, anglenum, *xa, **xk):
+                r = orig(deb, residue, anglenum, *xa, **xk)
+                if cur:
+                    cur[-1]["ev"].append({"e": "score", "s": q6(r)})
+                return r
+            return score_dihedral_angle
+
+        def mk_set(orig):
+            def set_dihedral_angle(deb, residue, anglenum, angle, *xa, **xk):
+                r = orig(deb, residue, anglenum, angle, *xa, **xk)
+                if cur:
+                    try:
+                        a = int(round(float(angle) * 1000))
+                    except Exception:
+                        a = 2 ** 30
+                    cur[-1]["ev"].append({"e": "set", "a": a if abs(a) < 2 ** 30 else 2 ** 30})
+                return r
+            return set_dihedral_angle
+
+        def mk_conf(orig):
+            def find_residue_conflicts(deb, residue, *xa, **xk):
+                r = orig(deb, residue, *xa, **xk)
+                if cur and tr.frame_name(2).endswith("debump_residue"):
+                    try:
+                        k = len(r)
+                    except Exception:
+                        k = 1 if r else 0
+                    cur[-1]["ev"].append({"e": "conf", "k": k})
+                return r
+            return find_residue_conflicts
+
+        def mk_pick(orig):
+            def pick_dihedral_angle(residue, conflict_names, *xa, **xk):
+                r = orig(residue, conflict_names, *xa, **xk)
+                if cur:
+                    cur[-1]["ev"].append({"e": "pick", "n": int(r) if isinstance(r, int) else -2})
+                return r
+            return pick_dihedral_angle
+        self._patch(debump.Debump, "debump_residue", mk_res)
+        self._patch(debump.Debump, "score_dihedral_angle", mk_score)
+        self._patch(debump.Debump, "set_dihedral_angle", mk_set)
+        self._patch(debump.Debump, "find_residue_conflicts", mk_conf)
+        self._patch(presidue.Residue, "pick_dihedral_angle", mk_pick)
 
     def _install_log(self):
         import logging
